@@ -17,6 +17,14 @@ fn main() {
         let ternary_left: i64 = argv[3].parse().expect("ternary_left");
         std::fs::write(format!("{dir}/ClimbTable.lean.new"), tables::climb_table(ternary_left)).expect("write");
         std::fs::write(format!("{dir}/FeaturesTable.lean.new"), tables::features_table()).expect("write");
+        // vh-syntax gen-tables <out-dir> <ternary_left> [words from name_to_kind, comma separated]
+        let mut words: Vec<String> = argv.get(4).map(|w| w.split(',').filter(|x| !x.is_empty()).map(|x| x.to_string()).collect()).unwrap_or_default();
+        for w in tables::SOFT_WORDS {
+            if !words.iter().any(|x| x == w) {
+                words.push(w.to_string());
+            }
+        }
+        std::fs::write(format!("{dir}/FeaturesKeywords.lean.new"), tables::keyword_table(&words)).expect("write");
         return;
     }
     let args = Args::parse();
